@@ -242,6 +242,51 @@ PathT: TypeAlias = list[Union[int, str, "PathToken"]]
 
 RE_PROPERTY = re.compile(r"[\u0080-\uFFFFa-zA-Z_][\u0080-\uFFFFa-zA-Z0-9_-]*")
 
+RESERVED_WORDS = frozenset(
+    [
+        "true",
+        "false",
+        "nil",
+        "null",
+        "empty",
+        "blank",
+        "and",
+        "or",
+        "not",
+        "in",
+        "contains",
+        "if",
+        "else",
+        "with",
+        "required",
+        "as",
+        "for",
+    ]
+)
+"""Words that, on their own, are not lexed or parsed as a variable name."""
+
+
+def _quote_escaped(value: str) -> str:
+    """Return _value_ surrounded by quotes.
+
+    _value_ is the text of a quoted path segment as found in template source
+    text, with escape sequences intact, other than `\\'`, which the lexer has
+    already replaced with `'`.
+    """
+    if "\\" not in value and "'" not in value:
+        return f"'{value}'"
+
+    buf: list[str] = []
+    it = iter(value)
+    for ch in it:
+        if ch == "\\":
+            buf.append(ch + next(it, ""))
+        elif ch == '"':
+            buf.append('\\"')
+        else:
+            buf.append(ch)
+    return '"' + "".join(buf) + '"'
+
 
 @dataclass(kw_only=True, slots=True)
 class PathToken(TokenT):
@@ -253,16 +298,28 @@ class PathToken(TokenT):
     source: str = field(repr=False)
 
     def __str__(self) -> str:
-        it = iter(self.path)
-        buf = [str(next(it))]
-        for segment in it:
+        return self._str(nested=False)
+
+    def _str(self, *, nested: bool) -> str:
+        buf: list[str] = []
+        for index, segment in enumerate(self.path):
             if isinstance(segment, PathToken):
-                buf.append(f"[{segment}]")
+                buf.append(f"[{segment._str(nested=True)}]")
             elif isinstance(segment, str):
-                if RE_PROPERTY.fullmatch(segment):
+                if not RE_PROPERTY.fullmatch(segment):
+                    buf.append(f"[{_quote_escaped(segment)}]")
+                elif index:
                     buf.append(f".{segment}")
+                elif (
+                    not nested
+                    and len(self.path) == 1
+                    and segment in RESERVED_WORDS
+                ):
+                    # On its own, a reserved word would not be read as a variable.
+                    # Inside brackets it is.
+                    buf.append(f"[{_quote_escaped(segment)}]")
                 else:
-                    buf.append(f"[{segment!r}]")
+                    buf.append(segment)
             else:
                 buf.append(f"[{segment}]")
         return "".join(buf)
